@@ -36,10 +36,11 @@ pub fn answer(op: &[i64]) -> String {
     }
     1 => match LunarDay::new(p1 as isize, p2 as isize, p3 as usize) {
       Err(_) => "REFUSED".to_string(),
-      Ok(d) => {
+      Ok(d0) => {
         // per-value lazy memos: getters in different orders must agree
+        let one = |d: &LunarDay, ord: i64| -> String {
         let (a, b, c);
-        match p4 {
+        match ord {
           0 => {
             a = d.get_solar_day().to_string();
             b = d.get_sixty_cycle_day().to_string();
@@ -58,6 +59,16 @@ pub fn answer(op: &[i64]) -> String {
           }
         }
         format!("{}|{}|{}|{}", d, a, b, c)
+        };
+        let r0 = one(&LunarDay::from_ymd(p1 as isize, p2 as isize, p3 as usize), 0);
+        let r1 = one(&LunarDay::from_ymd(p1 as isize, p2 as isize, p3 as usize), 1);
+        let r2 = one(&d0, 2);
+        let _ = p4;
+        if r0 == r1 && r1 == r2 {
+          r0
+        } else {
+          format!("ORDER-DEPENDENT getters: [{}] [{}] [{}]", r0, r1, r2)
+        }
       }
     },
     2 => {
@@ -88,6 +99,44 @@ pub fn answer(op: &[i64]) -> String {
       let m = LunarMonth::from_ym(p1 as isize, p2 as isize).next(p3 as isize);
       format!("{}|{}|{}|{}", m.get_year(), m.get_month_with_leap(), m.get_day_count(), m.get_first_julian_day().get_day())
     }
+    9 => match LunarDay::new(p1 as isize, p2 as isize, p3 as usize) {
+      Err(_) => "REFUSED".to_string(),
+      Ok(_) => {
+        // the stepped day must not depend on whether the memoised views of the source day were read first
+        let n = p4 / 2 - 20;
+        let step = |read_first: bool| -> String {
+          let d = LunarDay::from_ymd(p1 as isize, p2 as isize, p3 as usize);
+          if read_first {
+            let _ = (d.get_solar_day(), d.get_sixty_cycle_day(), d.get_week());
+          }
+          let g = d.next(n as isize);
+          format!("{}|{}|{}|{}", g, g.get_solar_day(), g.get_sixty_cycle_day(), g.get_week())
+        };
+        let (a, b) = (step(false), step(true));
+        if a == b {
+          a
+        } else {
+          format!("ORDER-DEPENDENT step: fresh [{}] after reading [{}]", a, b)
+        }
+      }
+    },
+    10 => {
+      let t = SolarTime::from_ymd_hms(p1 as isize, p2 as usize, p3 as usize, ((p4 / 2) % 24) as usize, 15, 0);
+      let step = |read_first: bool| -> String {
+        let h = t.get_lunar_hour();
+        if read_first {
+          let _ = (h.get_solar_time(), h.get_sixty_cycle_hour());
+        }
+        let g = h.next((p4 / 48 - 6) as isize);
+        format!("{}|{}|{}", g, g.get_solar_time(), g.get_sixty_cycle_hour())
+      };
+      let (a, b) = (step(false), step(true));
+      if a == b {
+        a
+      } else {
+        format!("ORDER-DEPENDENT step: fresh [{}] after reading [{}]", a, b)
+      }
+    }
     _ => "BADOP".to_string(),
   });
   match r {
@@ -99,7 +148,7 @@ pub fn answer(op: &[i64]) -> String {
 fn op_desc(op: &[i64]) -> String {
   match op[0] {
     0 => format!("LunarMonth::from_ym({},{})", op[1], op[2]),
-    1 => format!("LunarDay::new({},{},{})[getter order {}]", op[1], op[2], op[3], op[4]),
+    1 => format!("LunarDay::new({},{},{}) getters in three orders", op[1], op[2], op[3]),
     2 => format!("SolarDay({},{},{}).get_lunar_day()", op[1], op[2], op[3]),
     3 => format!("SixtyCycleDay::from_solar_day({}-{}-{})", op[1], op[2], op[3]),
     4 => format!("LunarFestival::from_index({},{})", op[1], op[2]),
@@ -107,6 +156,8 @@ fn op_desc(op: &[i64]) -> String {
     6 => format!("ChildLimit::from_solar_time({}-{}-{} {}:30:00, {})", op[1], op[2], op[3], op[4] / 2, if op[4] % 2 == 0 { "MAN" } else { "WOMAN" }),
     7 => format!("LunarYear({}).get_months()/get_day_count()", op[1]),
     8 => format!("LunarMonth::from_ym({},{}).next({})", op[1], op[2], op[3]),
+    9 => format!("LunarDay::new({},{},{}).next({}) all views, with and without reading the source day first", op[1], op[2], op[3], op[4] / 2 - 20),
+    10 => format!("SolarTime({}-{}-{} {}:15).get_lunar_hour().next({}) all views, with and without reading the source hour first", op[1], op[2], op[3], (op[4] / 2) % 24, op[4] / 48 - 6),
     _ => "?".into(),
   }
 }
@@ -144,6 +195,48 @@ pub fn colliding_pairs() -> Vec<[i64; 4]> {
   v.sort();
   v.dedup();
   v
+}
+
+/// pairs of distinct valid (year, month) requests that coincide under a family of plausible lossy memo keys
+/// (year*k + month for several k, year*k + |month|, leap twins); at most `cap` pairs per key function,
+/// spread evenly over the years
+pub fn arithmetic_key_pairs(cap: usize) -> Vec<[i64; 4]> {
+  let mut all: Vec<(i64, i64)> = vec![];
+  for y in 0..=9999i64 {
+    for m in valid_months(y) {
+      all.push((y, m));
+    }
+  }
+  let mut out: Vec<[i64; 4]> = vec![];
+  let mut keyfns: Vec<Box<dyn Fn(i64, i64) -> i64>> = vec![];
+  for k in [10i64, 11, 12, 13, 14, 15, 16, 20, 24, 32, 64] {
+    keyfns.push(Box::new(move |y, m| y * k + m));
+    keyfns.push(Box::new(move |y, m| y * k + m.abs()));
+  }
+  keyfns.push(Box::new(|y, m| y * 100 + m.abs()));
+  keyfns.push(Box::new(|y, m| (y << 4) ^ m));
+  keyfns.push(Box::new(|y, m| y * 12 + (m + 12)));
+  for f in keyfns.iter() {
+    let mut groups: HashMap<i64, Vec<(i64, i64)>> = HashMap::new();
+    for &(y, m) in &all {
+      groups.entry(f(y, m)).or_default().push((y, m));
+    }
+    let mut pairs: Vec<[i64; 4]> = vec![];
+    for (_, g) in groups {
+      if g.len() >= 2 {
+        pairs.push([g[0].0, g[0].1, g[1].0, g[1].1]);
+      }
+    }
+    pairs.sort();
+    let step = (pairs.len() / cap.max(1)).max(1);
+    for p in pairs.iter().step_by(step).take(cap) {
+      out.push(*p);
+      out.push([p[2], p[3], p[0], p[1]]);
+    }
+  }
+  out.sort();
+  out.dedup();
+  out
 }
 
 /// small pool of years whose requests sit close together under any plausible lossy memo key
@@ -190,6 +283,8 @@ fn op_strategy() -> impl Strategy<Value = Vec<i64>> {
     4 => (date.clone(), 0i64..24).prop_map(|((y, m, d), h)| vec![5, y, m, d, h]),
     4 => (date.clone(), 0i64..48).prop_map(|((y, m, d), h)| vec![6, y.clamp(2, 9980), m, d.min(28), h]),
     3 => year.clone().prop_map(|y| vec![7, y.min(9998), 0, 0, 0]),
+    6 => (valid_month.clone(), 1i64..=29, 0i64..80).prop_map(|((y, m), d, q)| vec![9, y.clamp(25, 9998), if valid_months(y.clamp(25, 9998)).contains(&m) { m } else { m.abs() }, d, q]),
+    4 => (date.clone(), 0i64..576).prop_map(|((y, m, d), q)| vec![10, y.clamp(25, 9998), m, d.min(28), q]),
     4 => (valid_month.clone(), -14i64..=14).prop_map(|((y, m), n)| vec![8, y.clamp(2, 9997), if valid_months(y.clamp(2, 9997)).contains(&m) { m } else { m.abs() }, n, 0]),
     // refused requests (invalid month, missing leap month, bad day, bad year, unreachable child limit)
     4 => (year.clone(), prop_oneof![Just(0i64), Just(13), Just(-13), Just(14), Just(-14)]).prop_map(|(y, m)| vec![0, y, m, 0, 0]),
@@ -215,7 +310,7 @@ fn ops_of(case: &Case) -> Vec<Vec<i64>> {
 }
 
 fn is_lunar_op(op: &[i64]) -> bool {
-  matches!(op[0], 0 | 1 | 2 | 3 | 4 | 5 | 6 | 7 | 8)
+  matches!(op[0], 0..=10)
 }
 
 /// classify a history (non-trivial rule) and count generator classes
@@ -291,6 +386,12 @@ impl C10 {
     }
     if out.wants_sample(sub, nt) {
       out.sample(sub, nt, || json!({"history": ops.iter().map(|o| op_desc(o)).collect::<Vec<_>>(), "cold_answers": refs}));
+    }
+    for (pos, r) in refs.iter().enumerate() {
+      if r.starts_with("ORDER-DEPENDENT") {
+        out.fail(env, Viol { sub: sub.into(), kind: "answer_depends_on_order_of_reads_on_one_value".into(), case: Case::ints(&ops[pos]), key: key(&[("op", ops[pos][0]), ("p1", ops[pos][1]), ("p2", ops[pos][2])]), desc: op_desc(&ops[pos]), expected: "the same answer whichever memoised view is read first".into(), got: r.clone() });
+        return;
+      }
     }
     clean_state();
     for (pos, op) in ops.iter().enumerate() {
@@ -408,7 +509,7 @@ impl Prop for C10 {
   }
   fn meta(&self, _env: &Env) -> Meta {
     Meta {
-      rule: "Requests: LunarMonth::from_ym, LunarDay::new (+3 getter orders over the per-value memos), SolarDay->lunar, SixtyCycleDay, LunarFestival::from_index, eight characters, ChildLimit, LunarYear month list, LunarMonth::next; each answer is a canonical string of all observable fields, a refusal (Err or panic) is REFUSED. Generators: (1) `collide`: both orders of every pair of valid (year, month) requests whose undelimited concatenation year||month or month||year coincides (complete); (2) `history`: proptest vec(op, 1..60), 40% of years from a 30-year pool of neighbouring/colliding years, ~22% injected refused requests (month 0/13/-13, leap month the year lacks, day 0/31/32, year -2/-1/10000, child limits ending outside the supported range or in the 1582 gap); (3) `threads`: proptest-generated request lists issued by 16 threads from a shared queue; (4) `fresh`: proptest histories executed in a fresh process and each request alone in its own fresh process (no hooks). Oracle: answer inside the history == answer of the same request from a pristine state (memo emptied, lock poison cleared through the guarded hooks) == answer in a fresh process. Non-trivial: the history contains two lunar-month requests with equal concatenated digits, a month and its leap twin, or a refusal followed by at least one valid request; every threaded round is non-trivial. Distinct = distinct op sequences.".into(),
+      rule: "Requests: LunarMonth::from_ym, LunarDay::new (+3 getter orders over the per-value memos), SolarDay->lunar, SixtyCycleDay, LunarFestival::from_index, eight characters, ChildLimit, LunarYear month list, LunarMonth::next; each answer is a canonical string of all observable fields, a refusal (Err or panic) is REFUSED. Generators: (1) `collide`: both orders of every pair of valid (year, month) requests whose undelimited concatenation year||month or month||year coincides (complete), and `collide_arith`: both orders of pairs that coincide under 25 arithmetic key functions (year*k+month, year*k+|month| for k in 10..64, leap twins, xor/shift packings), up to 400/4000 pairs per function; (2) `history`: proptest vec(op, 1..60), 40% of years from a 30-year pool of neighbouring/colliding years, ~22% injected refused requests (month 0/13/-13, leap month the year lacks, day 0/31/32, year -2/-1/10000, child limits ending outside the supported range or in the 1582 gap); (3) `threads`: proptest-generated request lists issued by 16 threads from a shared queue; (4) `fresh`: proptest histories executed in a fresh process and each request alone in its own fresh process (no hooks). Oracle: answer inside the history == answer of the same request from a pristine state (memo emptied, lock poison cleared through the guarded hooks) == answer in a fresh process. Non-trivial: the history contains two lunar-month requests with equal concatenated digits, a month and its leap twin, or a refusal followed by at least one valid request; every threaded round is non-trivial. Distinct = distinct op sequences.".into(),
       assumptions: vec![
         "The in-process oracle trusts the verif-hooks reset/clear_poison accessors to restore a pristine state; the `fresh` sub-check does not use them and cross-checks this on sampled histories".into(),
         "Thread interleavings are whatever the OS scheduler produces in this run (sampled, not enumerated); a threaded violation may not reproduce from its replay file".into(),
@@ -431,6 +532,14 @@ impl Prop for C10 {
           run_case(env, out, "collide", &c, &ev);
         }
         out.set_exhaustive("collide", true);
+        // the same two-request histories for pairs that coincide under arithmetic keys (sampled)
+        let ap = arithmetic_key_pairs(env.tier.pick(400, 4000));
+        let (lo, hi) = shard_range(ap.len(), shard, nshards);
+        for p in &ap[lo..hi] {
+          let c = Case::ints(&[0, p[0], p[1], 0, 0, 0, p[2], p[3], 0, 0]);
+          run_case(env, out, "collide_arith", &c, &ev);
+        }
+        out.set_exhaustive("collide_arith", false);
       }
       "history" => {
         let total: u32 = env.tier.pick(4_000, 160_000);
@@ -456,7 +565,7 @@ impl Prop for C10 {
   }
   fn eval(&self, env: &Env, out: &mut Out, sub: &str, case: &Case) {
     match sub {
-      "collide" | "history" => self.eval_history(env, out, sub, case),
+      "collide" | "collide_arith" | "history" => self.eval_history(env, out, sub, case),
       "fresh" => self.eval_fresh(env, out, case),
       "threads" => self.eval_threads(env, out, case),
       _ => panic!("unknown sub-check {}", sub),
